@@ -19,6 +19,7 @@ mod c11;
 mod bsdrv;
 mod c12;
 mod c13;
+mod c14;
 mod c19;
 mod c20;
 
@@ -53,6 +54,7 @@ fn main() {
         "C20" => c20::run(tier),
         "C16" => c16::run(tier),
         "C17" => c17::run(tier),
+        "C14" => c14::run(tier),
         "C15" => c15::run(tier),
         "C05" => c05::run(tier),
         "C07" => c07_c08_c18::run_c07(tier),
